@@ -3180,6 +3180,10 @@ def groupby_scan(
     (single_axis,) = axis_  # type: ignore[misc]
     # avoid some roundoff error when we can.
     if by_.shape[-1] == 1 or by_.shape == grp_shape:
+        # every position is a group of its own
+        if agg.mode == "apply_binary_op" and array.dtype.kind in "fc":
+            # a NaN-skipping accumulation (nancumsum) of a lone NaN is the identity
+            array = np.where(np.isnan(array), agg.identity, array)
         array = array.astype(agg.dtype)
         if cast_to is not None:
             array = array.astype(cast_to)
